@@ -1123,6 +1123,9 @@ class SpectrumResult:
 
     def __getattr__(self, name: str) -> Any:
         """Lazy computation and caching of spectral properties."""
+        # Not yet initialised (copy/pickle look up dunder hooks on a bare instance)
+        if name in ("_cache", "_data") or (name.startswith("__") and name.endswith("__")):
+            raise AttributeError(name)
         if name in self._cache:
             return self._cache[name]
 
